@@ -4,6 +4,9 @@ import json, os
 V = os.path.dirname(os.path.dirname(os.path.abspath(__file__)))
 CLAIMED = {
  # id: (category, technique, text, note)
+ 'C01': ('proof', 'deductive VCs from the real AST (pyvc): one arbitrary iteration of the record loop against the specification automaton (stutter/simulation rule), decision tables of the classifiers over the whole shipped mapping / ion table / ligand classes, Group.setup, extract_groups, section writer, average census; GROUND table values',
+         'terminus tagging proved per record for every loop state and column content (atom-name field from listed classes); classification, model pKa assignment and once-only extraction proved; the nine table values by ground evaluation.',
+         'stutter rule + composition step (bounded census monitor); Atom.set_properties under contract in C07; A-ASCII'),
  'C02': ('proof', 'deductive VCs from the real AST (pyvc): representation invariant pKa = model + SUM established by calculate_total_pka (fold rule), ghost stale-flag sequencing proof of calculate_pka, swap/undo proof of the coupling probe on symbolic determinant lists, averaging, rendering ropes; frame census of writers',
          'INV proved to be established, preserved by the coupling probe and by averaging, and re-established on every path of calculate_pka; printed rows proved to be exactly the determinants. Numeric text (2 decimals) only by the bounded monitor.',
          'A-REAL; writers abstracted by the declared frame list; list shapes <= 4 in swap proofs'),
@@ -13,6 +16,9 @@ CLAIMED = {
  'C09': ('proof', 'deductive VCs from the real AST (pyvc) discharged by z3: closed form/bounds/monotonicity of calculate_charge, fold rule for the container sums, inductive contract of the nested bisection, rendering contract',
          'Every obligation is a VC generated from the working tree and discharged by z3; a bounded monitor on real runs stands in for the composition step only.',
          'A-REAL, A-EXP (10**x as positive strictly monotone function), IVT for "bracket => root", termination of the bisection not proved'),
+ 'C13': ('proof', 'deductive VCs from the real AST (pyvc): stutter lemma and specification automaton for one arbitrary iteration of the record loop under chain selections; option plumbing VC + AST ground check of the argparse declaration; frame census of .chains',
+         'records of unselected chains leave the reader state unchanged and yield nothing; all other records are processed as without the option - for every loop state and column content; hence (simulation rule) the atom sequence equals that of the file with those records deleted.',
+         'stutter/simulation rule; composition step for the rest of the pipeline (bounded monitor: selection vs deletion on real runs)'),
  'C15': ('proof', 'deductive VCs from the real AST (pyvc): swap/undo of the coupling probe on symbolic determinant lists (object identity, values, labels), involution of transfer_determinant, symmetric registration, positive-factor rule, star rule',
          'every return path of is_coupled_protonation_state_probability restores both groups exactly (over the reals); coupling marks symmetric as read by every consumer; star <=> partner.',
          'A-REAL (float sums after re-ordering: monitored to 1e-9); membership read through Group.__eq__ (labels; known finding D9 for insertion codes)'),
